@@ -10,6 +10,7 @@ V  Trace_Preproc (see vp/trace_preproc.py) on traces recorded from these runs.
 """
 import os
 import random
+import re
 import shutil
 import subprocess
 import tempfile
@@ -174,7 +175,7 @@ def gcc_validate(ctx, cases, limit, seed):
             for i, it in enumerate(prog):
                 if it["k"] == "code":
                     k += 1
-                    present = (f"mk{k}" in p.stdout) or (f"f{k}(" in p.stdout)
+                    present = re.search(rf"\bmk{k}\b", p.stdout) is not None
                     if present != bool(bits[i]):
                         dis += 1
                         break
